@@ -3,6 +3,7 @@
 package c10
 
 import (
+	"syscall"
 	"fmt"
 	"sort"
 	"testing"
@@ -69,6 +70,9 @@ type Ev struct {
 	// SendFail (mcast): the UPF's socket refuses writes while the Session Report Requests of this batch are first transmitted (a
 	// full device queue, a route flap); the requests are outstanding all the same and their retransmission delivers the reports
 	SendFail bool `json:"send_fail,omitempty"`
+	// Refused (update): the data plane refuses the update of every URR this event names (ENOMEM, before it takes effect): the
+	// installed URRs go on measuring as before and their later reports must be rendered by the method they still have
+	Refused bool `json:"refused,omitempty"`
 }
 
 type Case struct {
@@ -226,6 +230,7 @@ type stats struct {
 	multiSess, unknown, big bool
 	manyPerTick             bool // one tick had more than 56 URRs to report (several netlink requests)
 	takeover                bool
+	refusedUpdates          int  // Update URRs the data plane refused
 	sendFailed              bool // the first transmission of a batch's requests failed; their retransmission was looked at
 	reports                 int
 }
@@ -597,6 +602,7 @@ func run(c Case) (v *vcore.Violation, stt stats) {
 						nm := uint8(ev.Vals.V[0]) & 7
 						ru := stack.RuleOp{Verb: "update", Kind: "URR", ID: id, Method: nm, MNOP: !u.MNOP, Trig: 0x02}
 						// which of the two measurement IEs the update carries (absent = unchanged)
+						was := u
 						switch ev.Vals.V[1] % 3 {
 						case 0:
 							u.Method, u.MNOP = nm, !u.MNOP
@@ -605,6 +611,10 @@ func run(c Case) (v *vcore.Violation, stt stats) {
 							u.Method = nm
 						default:
 							ru.NoMeas = true
+						}
+						if ev.Refused {
+							u = was
+							stt.refusedUpdates++
 						}
 						rules = append(rules, ru)
 						// the periodic registration made at creation stays (C03's known finding); the tick model keeps u.Perio
@@ -678,7 +688,16 @@ func run(c Case) (v *vcore.Violation, stt stats) {
 			}
 			op.Rules = rules
 			stt.reports += len(ws)
+			if ev.Kind == "update" && ev.Refused {
+				f.D.K.Fail = func(rq *simkernel.Request) int {
+					if k, verb := simkernel.Classify(rq); verb == "update" && k.Kind == "URR" {
+						return int(syscall.ENOMEM)
+					}
+					return 0
+				}
+			}
 			o := r.Step(op)
+			f.D.K.Fail = nil
 			if x := dead(o, what); x != nil {
 				return x, stt
 			}
@@ -798,6 +817,9 @@ func gen(t *rapid.T) Case {
 				ev.Reps = append(ev.Reps, rp)
 			}
 		case "query", "remove", "update", "create", "rmboth":
+			if k == "update" {
+				ev.Refused = rapid.IntRange(0, 2).Draw(t, "refused") == 0
+			}
 			nq := rapid.IntRange(1, 3).Draw(t, "nq")
 			seen := map[uint32]bool{}
 			for j := 0; j < nq; j++ {
@@ -842,6 +864,9 @@ func brief(c Case) any {
 func account(c Case, s stats) {
 	vcore.E.Eval()
 	vcore.E.ClassN("usage_reports_expected", int64(s.reports))
+	if s.refusedUpdates > 0 {
+		vcore.E.Class("update_urr_refused_by_the_data_plane")
+	}
 	if s.sendFailed && s.reports > 0 {
 		vcore.E.Class("reports_delivered_by_a_retransmission_after_a_failed_first_transmission")
 	}
